@@ -26,6 +26,12 @@ def is_f1(v):
     return len(out) == 1 and out[0]["t"] == "single" and out[0]["rs"] == [{"id": 0, "kind": "timeout", "sub": 0}]
 
 
+# C49_FIXED=1: the tree under test carries the repairs of C49-F1/F2 (spec/net/mutations/C49-F*-candidate-fix.diff):
+# no pending handling, the gated schedule graph and the V oracle are the repaired variant of RPC.tla
+# (AsCoded /\ Fixed, model-checked against all invariants), any divergence is a violation.
+STRICT = os.environ.get("C49_FIXED") == "1"
+
+
 def rpc_graph(res, meta):
     ids, states, acts, actix, edges = {}, [], [], {}, []
     for st in res.lines.get("STATE", []):
@@ -71,15 +77,16 @@ def run(ctx):
     finally:
         os.environ.pop("GOEXPERIMENT", None)
     # MC: all messages of the grammar x all interleavings, on the behaviour the property demands
-    for cfg in ctx.pick(["MCRPCHttpQuick", "MCRPCConnQuick"], ["MCRPCHttp", "MCRPCHttpLimit", "MCRPCConn"]):
+    for cfg in ctx.pick(["MCRPCHttpQuick", "MCRPCConnQuick", "MCRPCFixed"], ["MCRPCHttp", "MCRPCHttpLimit", "MCRPCConn", "MCRPCFixed", "MCRPCFixedThorough"]):
         ctx.model_check("net/MCRPC", "net/" + cfg, timeout=7200, workers=4, name=cfg, deadlock=False)
     # the as-coded variant must show the two known counterexamples (documentation of the findings, not a verdict)
     r = ctx.tlc("net/MCRPC", "net/MCRPCAsCoded", timeout=3600, workers=4, deadlock=False, name="MCRPCAsCoded")
     ctx.notes.append("as-coded model (AsCoded=TRUE): TLC %s" % ("finds a counterexample to %s (findings C49-F1/F2)" % r.violated if r.violated else "found no counterexample"))
     # R: schedules forced on the real server
     pending = []
-    for cfg in ctx.pick(["MCRPCSchedHttp", "MCRPCSchedConn", "MCRPCSchedGated"],
-                        ["MCRPCSchedHttp", "MCRPCSchedHttpLimit", "MCRPCSchedConn", "MCRPCSchedConnThorough", "MCRPCSchedGated"]):
+    gated = "MCRPCSchedGatedFixed" if STRICT else "MCRPCSchedGated"
+    for cfg in ctx.pick(["MCRPCSchedHttp", "MCRPCSchedConn", gated],
+                        ["MCRPCSchedHttp", "MCRPCSchedHttpLimit", "MCRPCSchedConn", "MCRPCSchedConnThorough", gated]):
         res = ctx.model_check("net/MCRPCSched", "net/" + cfg, tags=("EDGE", "STATE"), timeout=7200, workers=4, name=cfg, deadlock=False)
         gp = os.path.join(ctx.scratch, cfg + ".json")
         write_json(gp, rpc_graph(res, cfg_meta(os.path.join(SPEC, "net", cfg + ".cfg"))))
@@ -94,11 +101,14 @@ def run(ctx):
         s, _ = ctx.drive(drv, args, name="c49-stress-ctxaware" if aware else "c49-stress", timeout=7200)
         if not os.path.exists(tp) or os.path.getsize(tp) == 0:      # the driver died (reported as a violation by ctx.drive)
             continue
-        ok, consumed, total, r = ctx.validate("net/RPCTrace", tp, cfg="net/RPCTraceAsCoded", ntraces=s["traces"], timeout=7200,
-                                              silent_steps=True, dfs=True, name="RPCTraceAsCoded")
+        oracle = "net/RPCTraceFixed" if STRICT else "net/RPCTraceAsCoded"
+        ok, consumed, total, r = ctx.validate("net/RPCTrace", tp, cfg=oracle, ntraces=s["traces"], timeout=7200,
+                                              silent_steps=True, dfs=True, name=os.path.basename(oracle))
         if not ok:
-            ctx.reject_trace("net/RPCTrace", tp, consumed, r, cfg="net/RPCTraceAsCoded",
-                             desc="HTTP request %d: response of the real rpc.Server has no explanation by RPC.tla (not even by the as-coded variant)" % (consumed // 3 + 1))
+            ctx.reject_trace("net/RPCTrace", tp, consumed, r, cfg=oracle,
+                             desc="HTTP request %d: response of the real rpc.Server has no explanation by RPC.tla (%s)" % (consumed // 3 + 1, os.path.basename(oracle)))
+            continue
+        if STRICT:
             continue
         ok2, consumed2, total2, r2 = ctx.validate("net/RPCTrace", tp, cfg="net/RPCTrace", ntraces=0, timeout=7200,
                                                   silent_steps=True, dfs=True, name="RPCTrace(demanded)")
@@ -137,7 +147,7 @@ def drive_filtered(ctx, drv, gp, cfg, pending):
     s = json.load(open(out))
     keep = []
     for v in s.get("violations", []):
-        if is_f1(v):      # TODO-KNOWN-FINDING C49-F1 (pending coordinator decision)
+        if not STRICT and is_f1(v):      # TODO-KNOWN-FINDING C49-F1 (pending coordinator decision)
             line = "PENDING-FINDING property=C49 C49-F1 single notification answered with a timeout error (%s)" % cfg
             if line not in pending:
                 pending.append(line)
@@ -147,7 +157,10 @@ def drive_filtered(ctx, drv, gp, cfg, pending):
             keep.append(v)
     s["violations"] = keep
     nbad = int((s.get("extra") or {}).get("property_violating_states_reached_on_real_code", 0))
-    if nbad:
+    if nbad and STRICT:
+        ctx.violation("the real rpc.Server reached %d states of the schedule graph %s that violate ExactlyOnce/AtMostOnce" % (nbad, cfg),
+                      {"kind": "behaviour", "cfg": cfg, "schedules": s["extra"].get("property_violating_paths")})
+    elif nbad:
         # TODO-KNOWN-FINDING C49-F1/F2: the as-coded schedule graph (timer function held at the verif hook between
         # cancel() and the error response) contains states that violate AtMostOnce/ExactlyOnce; the real server
         # follows the graph into them.  Reported as pending, with the schedules, not as a verdict of this check.
